@@ -527,6 +527,31 @@ def gen_scenarios(seed_, n, profile):
 
 # ------------------------------------------------------------------ replay + validation
 
+class Crash(Exception):
+    """The test process died from a panic that no handler call could recover (e.g. in a goroutine the code spawned)."""
+
+    def __init__(self, sig, tail):
+        Exception.__init__(self, sig)
+        self.sig, self.tail = sig, tail
+
+
+def crash_signature(out):
+    """If the go test output shows an unrecovered panic / fatal error whose stack goes through the package under test
+    (not only through the injected harness), return a signature naming the innermost such function."""
+    import re
+    m = re.search(r"^(panic: .*|fatal error: .*)$", out, re.M)
+    if not m:
+        return None
+    stack = out[m.start():]
+    for fn in re.findall(r"^(github\.com/alephium/wormhole-fork/node/pkg/[\w/]+\.(?:\(\*?\w+\)\.)?[\w.]+)\(", stack, re.M):
+        if "zz_verif" in fn or ".ph" in fn or ".vh" in fn or "TestVerif" in fn:
+            continue
+        msg = re.sub(r"0x[0-9a-f]+", "0x", m.group(1))
+        msg = re.sub(r"[^A-Za-z0-9]+", "-", msg)[:50].strip("-")
+        return "crash/%s/%s" % (fn.split("/")[-1], msg)
+    return None
+
+
 def replay(work, scenarios, tag="p", runloop=False):
     scp = os.path.join(work, "scenarios_%s.ndjson" % tag)
     trp = os.path.join(work, "trace_%s.ndjson" % tag)
@@ -542,6 +567,9 @@ def replay(work, scenarios, tag="p", runloop=False):
                                  env={"VERIF_SCENARIOS": scp, "VERIF_TRACE": trp, "VERIF_SEED": vlib.seed(),
                                       "VERIF_RUNLOOP": "1" if runloop else ""}, timeout=1200)
     if "VERIF-REPLAYED" not in out:
+        crash = crash_signature(out)
+        if crash:
+            raise Crash(crash, out[-6000:])
         raise vlib.Broken("processor harness did not complete (rc=%d):\n%s" % (rc, out[-4000:]))
     return vlib.read_ndjson(trp), wall
 
